@@ -217,6 +217,10 @@ func init() {
 				b := c.Bool()
 				rc.GetBase64 = &b
 			}
+			if form == FormConnectGet && c.Prob(0.35) {
+				// the protocol version named in a header as well (what makes a request a Connect GET must not matter later on)
+				rc.ExtraHdrs = append(rc.ExtraHdrs, [2]string{"Connect-Protocol-Version", "1"})
+			}
 			svc := &p.Config.Services[0]
 			if c.Prob(0.6) {
 				svc.Protocols = []string{ProtoConnect}
